@@ -1,5 +1,4 @@
 SPECIFICATION Spec
-CONSTANT ConfigSeq <- Loaded
 INVARIANT NotStuck
 INVARIANT DoneMeansAll
 INVARIANT AbsOnceEach
